@@ -7,6 +7,9 @@
 
 mod cache;
 mod cached_store;
+// Result-level de-duplication is no longer part of the query path (copies are left out when
+// the chunks are selected); the routine and its tests are kept.
+#[allow(dead_code)]
 mod dedup;
 mod engine;
 mod router;
@@ -190,6 +193,24 @@ impl QueryNode {
                 .metadata
                 .get_chunks_with_predicates(time_range, &predicates)
                 .await?;
+
+            // While a shard is in the dual-write or backfill phase of a split, every row under
+            // its new shards is a copy of a row the old shard still holds. Leave those chunks
+            // out, so each ingested row is read once (and aggregates are not inflated).
+            let copy_shards = self
+                .metadata
+                .active_split_new_shards()
+                .await
+                .unwrap_or_default();
+            let chunks: Vec<_> = chunks
+                .into_iter()
+                .filter(|chunk| {
+                    !copy_shards.iter().any(|shard| {
+                        chunk.chunk_path.contains(&format!("shard={}/", shard))
+                            || chunk.chunk_path.starts_with(&format!("{}/", shard))
+                    })
+                })
+                .collect();
             let bytes_scanned = chunks.iter().map(|chunk| chunk.size_bytes).sum::<u64>();
 
             // Pin chunks to prevent GC during query execution (RAII guard unpins on drop)
@@ -198,9 +219,6 @@ impl QueryNode {
                 .pin_registry
                 .as_ref()
                 .map(|r| r.pin(chunk_paths.clone()));
-
-            // Check if any shard is in a dual-write split phase (causes duplicate data)
-            let needs_dedup = self.metadata.has_active_split().await.unwrap_or(false);
 
             // Map metadata-selected chunks into the logical `metrics` table used by SQL.
             // Execute query with or without adaptive indexing while holding a stable
@@ -218,14 +236,7 @@ impl QueryNode {
                 self.engine.execute_on_chunks(&chunk_paths, sql).await?
             };
 
-            // Deduplicate if any shard is in dual-write phase
-            let deduped = if needs_dedup {
-                dedup::dedup_batches(results)?
-            } else {
-                results
-            };
-
-            Ok((deduped, bytes_scanned))
+            Ok((results, bytes_scanned))
         }
         .await;
 
